@@ -583,10 +583,20 @@ func (in *Interp) indexIn(idx value, n int) int {
 	}
 	w := t.Sort.W
 	inRange := in.C.BVULt(t, in.C.BVConstU(uint64(n), w))
+	if w < 64 && uint64(n) >= uint64(1)<<uint(w) {
+		inRange = in.C.True() // every value of a narrow (unsigned) index type is below the length, e.g. table[byte]
+	}
 	if !in.branch(inRange) {
 		panic(targetPanic{msg: fmt.Sprintf("runtime error: index out of range [symbolic] with length %d", n)})
 	}
-	return int(in.concretize(t, "index").Int64())
+	return int(uint64(in.concretize(t, "index").Int64()) & widthMask(w))
+}
+
+func widthMask(w int) uint64 {
+	if w >= 64 {
+		return ^uint64(0)
+	}
+	return uint64(1)<<uint(w) - 1
 }
 
 // indexRead reads a[idx] building an ite chain for symbolic idx.
@@ -596,7 +606,8 @@ func (in *Interp) indexRead(a []value, idx value) value {
 		return a[in.indexIn(idx, len(a))]
 	}
 	w := t.Sort.W
-	if !in.branch(in.C.BVULt(t, in.C.BVConstU(uint64(len(a)), w))) {
+	narrowFits := w < 64 && uint64(len(a)) >= uint64(1)<<uint(w)
+	if !narrowFits && !in.branch(in.C.BVULt(t, in.C.BVConstU(uint64(len(a)), w))) {
 		panic(targetPanic{msg: fmt.Sprintf("runtime error: index out of range [symbolic] with length %d", len(a))})
 	}
 	// scalar elements: ite chain; otherwise concretise
@@ -609,7 +620,7 @@ func (in *Interp) indexRead(a []value, idx value) value {
 			return acc
 		}
 	}
-	return a[int(in.concretize(t, "index").Int64())]
+	return a[int(uint64(in.concretize(t, "index").Int64())&widthMask(w))]
 }
 
 func (in *Interp) prepareCall(fr *frame, call *ssa.CallCommon) (fn value, args []value) {
